@@ -59,4 +59,8 @@ MUTANTS = [
     m("c18-h1flow-writes-pos", "C18", "R5", S, "        state.mom -= dt * self.dh1_dpos(state)", "        state.mom -= dt * self.dh1_dpos(state)\n        state.pos = state.pos + 0.0"),
     m("c18-transition-builds-fresh-state", "C18", "R6", "transitions.py", "        state.mom = self.system.sample_momentum(state, rng)\n        return state, None\n\n\nclass CorrelatedMomentumTransition", "        from mici.states import ChainState\n\n        state = ChainState(pos=state.pos, mom=self.system.sample_momentum(state, rng), dir=state.dir)\n        return state, None\n\n\nclass CorrelatedMomentumTransition"),
     m("c18-twin-h2-extra-dep", "C18", None, S, '    @cache_in_state("mom")\n    def h2(self, state: ChainState) -> ScalarLike:\n        return 0.5 * state.mom @ self.dh2_dmom(state)', '    @cache_in_state("mom", "pos")\n    def h2(self, state: ChainState) -> ScalarLike:\n        return 0.5 * state.mom @ self.dh2_dmom(state)', twin=True),
+    m("c18-setstate-deps-fromkeys", "C18", "R7", ST, 'self.__dict__["_dependencies"] = state["dependencies"]', 'self.__dict__["_dependencies"] = dict.fromkeys(state["variables"], set())'),
+    m("c18-init-deps-fromkeys", "C18", "R7", ST, "            _dependencies = {name: set() for name in variables}", "            _dependencies = dict.fromkeys(variables, set())"),
+    m("c18-init-deps-shared-comprehension", "C18", "R7", ST, "            _dependencies = {name: set() for name in variables}", "            empty = set()\n            _dependencies = {name: empty for name in variables}"),
+    m("c18-twin-init-deps-renamed", "C18", None, ST, "            _dependencies = {name: set() for name in variables}", "            _dependencies = {var: set() for var in variables}", twin=True),
 ]
